@@ -34,14 +34,15 @@ type World struct {
 }
 
 type worldOpts struct {
-	stores     int
-	labels     func(i int) map[string]string
-	cfgTweak   func(*config.Config)
-	faults     bool
-	replicas   int
-	noInitHB   bool
-	fastPatrol bool
-	schedulers bool
+	stores       int
+	labels       func(i int) map[string]string
+	cfgTweak     func(*config.Config)
+	faults       bool
+	replicas     int
+	noInitHB     bool
+	fastPatrol   bool
+	schedulers   bool
+	storeVersion string // TiKV version reported by the stores ("" = 5.0.0)
 }
 
 // onPD runs f as a task on the PD node and waits for it.
@@ -79,6 +80,7 @@ func newWorld(rc *corepkg, o worldOpts) *World {
 		return nil
 	}
 	w := &World{RC: rc, E: e, L: l, Srv: l.Srv, M: simtikv.New(rc.Knob("num_keys", 3)*40+8, 1000000)}
+	w.M.StoreVersion = o.storeVersion
 	w.Cl = l.Srv.GetRaftCluster()
 	if w.Cl == nil {
 		rc.Anomaly("raft cluster not running after bootstrap")
